@@ -6,12 +6,16 @@
 (*   the Runtime            rt = 0 (none) or g, the generation alive       *)
 (*   Package objects        mods[m].pobj (Package = result of compile)     *)
 (*   function handles       hnd[h] = m : TypedFunc obtained from package m *)
+(*   closures               clo[c] = m : the `impl Fn` that                 *)
+(*                          TypedFunc::into_func made out of a handle; it   *)
+(*                          owns the handle it was made from                *)
 (*                                                                         *)
 (* Resources and who holds them (src/codegen/mod.rs ModuleData,            *)
 (* SharedModuleData = Arc<ModuleData>; src/runtime/mod.rs ConstantValue =  *)
 (* Arc<..>; src/runtime/func.rs FunctionDescription.pointer = Arc<Box<..>>)*)
 (*   module m  = machine code + script constants of one compilation;       *)
-(*               held by the Package object and by every handle into it    *)
+(*               held by the Package object, by every handle into it and   *)
+(*               by every closure made from such a handle                  *)
 (*   constant g = the registered constant of runtime generation g;         *)
 (*               held by the Runtime and by every module compiled from it  *)
 (*               (declare_constant clones every registered constant's Arc  *)
@@ -36,6 +40,7 @@ EXTENDS Naturals, Sequences, FiniteSets, TLC
 
 CONSTANTS Versions,   \* script versions that may be compiled (subset of {1, 2})
           Handles,    \* handle slots: a set of positive naturals
+          Closures,   \* slots for closures made by into_func: positive naturals
           MaxMods,    \* bound on the number of compilations
           MaxGens     \* bound on the number of runtimes built
 
@@ -50,19 +55,24 @@ VARIABLES rt,     \* 0, or the generation of the Runtime object that is alive
           gens,   \* per generation: [crc, cfree, frc, ffree, cnt]
           mods,   \* per compilation: [v, g, pobj, rc, nfree]
           hnd,    \* handle slot -> module (0 = slot empty)
+          clo,    \* closure slot -> module (0 = slot empty)
           obs     \* what the last action returned to the host
-vars == <<rt, gens, mods, hnd, obs>>
+vars == <<rt, gens, mods, hnd, clo, obs>>
 
 Mods == DOMAIN mods
 Gens == DOMAIN gens
 
 (* ---- the object graph: who holds what ---------------------------------- *)
-(* holder 0 stands for the Package object / the Runtime object              *)
-HoldersM(m) == (IF mods[m].pobj THEN {0} ELSE {}) \cup {h \in Handles : hnd[h] = m}
+(* holders are named <<kind, id>>: "p" the Package object, "h" a handle,     *)
+(* "c" a closure, "r" the Runtime object, "m" a module                      *)
+HoldersM(m) == (IF mods[m].pobj THEN {<<"p", 0>>} ELSE {})
+               \cup {<<"h", h>> : h \in {x \in Handles : hnd[x] = m}}
+               \cup {<<"c", c>> : c \in {x \in Closures : clo[x] = m}}
 Held(m)     == HoldersM(m) # {}
-HoldersC(g) == (IF rt = g THEN {0} ELSE {}) \cup {m \in Mods : mods[m].g = g /\ Held(m)}
-HoldersF(g) == (IF rt = g THEN {0} ELSE {})
-               \cup {m \in Mods : mods[m].g = g /\ UsesClosure(mods[m].v) /\ Held(m)}
+HoldersC(g) == (IF rt = g THEN {<<"r", 0>>} ELSE {})
+               \cup {<<"m", m>> : m \in {x \in Mods : mods[x].g = g /\ Held(x)}}
+HoldersF(g) == (IF rt = g THEN {<<"r", 0>>} ELSE {})
+               \cup {<<"m", m>> : m \in {x \in Mods : mods[x].g = g /\ UsesClosure(mods[x].v) /\ Held(x)}}
 
 (* ---- observations -------------------------------------------------------- *)
 LiveK(v) == NConst(v) * Cardinality({m \in Mods : mods[m].v = v /\ mods[m].nfree = 0})
@@ -100,58 +110,59 @@ DecModG(G, M, m) == IF M[m].rc = 1
 CallG(G, m) == IF UsesClosure(mods[m].v) THEN [G EXCEPT ![mods[m].g].cnt = @ + 1] ELSE G
 
 (* ---- actions --------------------------------------------------------------- *)
-Init == rt = 0 /\ gens = <<>> /\ mods = <<>> /\ hnd = [h \in Handles |-> 0] /\ obs = NoRes
+Init == /\ rt = 0 /\ gens = <<>> /\ mods = <<>> /\ obs = NoRes
+        /\ hnd = [h \in Handles |-> 0] /\ clo = [c \in Closures |-> 0]
 
 BuildRuntime ==
     /\ rt = 0 /\ Len(gens) < MaxGens
     /\ gens' = Append(gens, [crc |-> 1, cfree |-> 0, frc |-> 1, ffree |-> 0, cnt |-> 0])
     /\ rt' = Len(gens) + 1
-    /\ UNCHANGED <<mods, hnd>> /\ obs' = NoRes
+    /\ UNCHANGED <<mods, hnd, clo>> /\ obs' = NoRes
 
 Compile(v) ==
     /\ rt # 0 /\ Len(mods) < MaxMods
     /\ mods' = Append(mods, [v |-> v, g |-> rt, pobj |-> TRUE, rc |-> 1, nfree |-> 0])
     /\ gens' = [gens EXCEPT ![rt].crc = @ + 1,
                             ![rt].frc = IF UsesClosure(v) THEN @ + 1 ELSE @]
-    /\ UNCHANGED <<rt, hnd>> /\ obs' = NoRes
+    /\ UNCHANGED <<rt, hnd, clo>> /\ obs' = NoRes
 
 GetHandle(m, h) ==
     /\ m \in Mods /\ mods[m].pobj /\ hnd[h] = 0
     /\ hnd' = [hnd EXCEPT ![h] = m]
     /\ mods' = [mods EXCEPT ![m].rc = @ + 1]
-    /\ UNCHANGED <<rt, gens>> /\ obs' = NoRes
+    /\ UNCHANGED <<rt, gens, clo>> /\ obs' = NoRes
 
 CloneHandle(a, b) ==
     /\ hnd[a] # 0 /\ hnd[b] = 0
     /\ hnd' = [hnd EXCEPT ![b] = hnd[a]]
     /\ mods' = [mods EXCEPT ![hnd[a]].rc = @ + 1]
-    /\ UNCHANGED <<rt, gens>> /\ obs' = NoRes
+    /\ UNCHANGED <<rt, gens, clo>> /\ obs' = NoRes
 
 (* a handle that exists can always be called *)
 Call(h) ==
     /\ hnd[h] # 0
     /\ obs' = Result(hnd[h])
     /\ gens' = CallG(gens, hnd[h])
-    /\ UNCHANGED <<rt, mods, hnd>>
+    /\ UNCHANGED <<rt, mods, hnd, clo>>
 
 DropHandle(h) ==
     /\ hnd[h] # 0
     /\ hnd' = [hnd EXCEPT ![h] = 0]
     /\ mods' = DecModM(mods, hnd[h])
     /\ gens' = DecModG(gens, mods, hnd[h])
-    /\ UNCHANGED rt /\ obs' = NoRes
+    /\ UNCHANGED <<rt, clo>> /\ obs' = NoRes
 
 DropPkg(m) ==
     /\ m \in Mods /\ mods[m].pobj
     /\ mods' = DecModM([mods EXCEPT ![m].pobj = FALSE], m)
     /\ gens' = DecModG(gens, mods, m)
-    /\ UNCHANGED <<rt, hnd>> /\ obs' = NoRes
+    /\ UNCHANGED <<rt, hnd, clo>> /\ obs' = NoRes
 
 DropRuntime ==
     /\ rt # 0
     /\ rt' = 0
     /\ gens' = [gens EXCEPT ![rt] = DecGen(@, TRUE, TRUE)]
-    /\ UNCHANGED <<mods, hnd>> /\ obs' = NoRes
+    /\ UNCHANGED <<mods, hnd, clo>> /\ obs' = NoRes
 
 (* the handle is moved to another thread, called there once and dropped there *)
 MoveToThread(h) ==
@@ -160,13 +171,37 @@ MoveToThread(h) ==
     /\ hnd' = [hnd EXCEPT ![h] = 0]
     /\ mods' = DecModM(mods, hnd[h])
     /\ gens' = DecModG(CallG(gens, hnd[h]), mods, hnd[h])
-    /\ UNCHANGED rt
+    /\ UNCHANGED <<rt, clo>>
+
+(* TypedFunc::into_func: the handle is consumed, the closure that comes back *)
+(* owns it: the reference moves from the handle to the closure               *)
+IntoFunc(h, c) ==
+    /\ hnd[h] # 0 /\ clo[c] = 0
+    /\ hnd' = [hnd EXCEPT ![h] = 0]
+    /\ clo' = [clo EXCEPT ![c] = hnd[h]]
+    /\ UNCHANGED <<rt, gens, mods>> /\ obs' = NoRes
+
+(* a closure that exists can always be called, and means what Call means *)
+CallClosure(c) ==
+    /\ clo[c] # 0
+    /\ obs' = Result(clo[c])
+    /\ gens' = CallG(gens, clo[c])
+    /\ UNCHANGED <<rt, mods, hnd, clo>>
+
+DropClosure(c) ==
+    /\ clo[c] # 0
+    /\ clo' = [clo EXCEPT ![c] = 0]
+    /\ mods' = DecModM(mods, clo[c])
+    /\ gens' = DecModG(gens, mods, clo[c])
+    /\ UNCHANGED <<rt, hnd>> /\ obs' = NoRes
 
 Next == \/ BuildRuntime \/ DropRuntime
         \/ \E v \in Versions : Compile(v)
         \/ \E m \in Mods : DropPkg(m) \/ \E h \in Handles : GetHandle(m, h)
         \/ \E a, b \in Handles : CloneHandle(a, b)
         \/ \E h \in Handles : Call(h) \/ DropHandle(h) \/ MoveToThread(h)
+        \/ \E h \in Handles, c \in Closures : IntoFunc(h, c)
+        \/ \E c \in Closures : CallClosure(c) \/ DropClosure(c)
 
 Spec == Init /\ [][Next]_vars
 
@@ -176,6 +211,7 @@ TypeOK ==
     /\ \A g \in Gens : gens[g] \in [crc : Nat, cfree : Nat, frc : Nat, ffree : Nat, cnt : Nat]
     /\ \A m \in Mods : mods[m] \in [v : Versions, g : Gens, pobj : BOOLEAN, rc : Nat, nfree : Nat]
     /\ hnd \in [Handles -> 0..Len(mods)]
+    /\ clo \in [Closures -> 0..Len(mods)]
 
 (* the strong counts are exactly the sizes of the holder sets *)
 RefCountsExact ==
@@ -189,13 +225,12 @@ FreedIffUnheld ==
     /\ \A g \in Gens : /\ gens[g].cfree = IF HoldersC(g) # {} THEN 0 ELSE 1
                        /\ gens[g].ffree = IF HoldersF(g) # {} THEN 0 ELSE 1
 
-(* everything a call touches is alive as long as the handle exists *)
-CallValid ==
-    \A h \in Handles : hnd[h] # 0 =>
-        LET m == hnd[h] IN
-        /\ mods[m].nfree = 0
-        /\ gens[mods[m].g].cfree = 0
-        /\ UsesClosure(mods[m].v) => gens[mods[m].g].ffree = 0
+(* everything a call touches is alive as long as the handle / closure exists *)
+Callable(m) == /\ mods[m].nfree = 0
+               /\ gens[mods[m].g].cfree = 0
+               /\ UsesClosure(mods[m].v) => gens[mods[m].g].ffree = 0
+CallValid == /\ \A h \in Handles : hnd[h] # 0 => Callable(hnd[h])
+             /\ \A c \in Closures : clo[c] # 0 => Callable(clo[c])
 
 (* a released module never comes back, a module never changes its script    *)
 (* version / runtime (its constants)                                         *)
